@@ -522,6 +522,10 @@ class Exec:
             return None                  # a qubit being created, or a lock of a retired network
         return n
 
+    def _tag(self, op):
+        conc = self.case.get("conc", [])
+        return conc[op][0] if isinstance(op, int) and op < len(conc) else None
+
     def _ctx(self):
         return self.exp.cur if self.exp is not None else None
 
@@ -554,7 +558,7 @@ class Exec:
         own, ctx = self.owner.get(name), self._ctx()
         if name.startswith("node:"):
             self.lock_events.append(["rel", name, ctx, own])
-            if lock.locked and own != ctx:
+            if lock.locked and own != ctx and self._tag(own) != self._tag(ctx):
                 self.foreign.append([name, ctx, own])
         if self.waiters[name]:
             self.owner[name] = self.waiters[name].pop(0)
@@ -1216,14 +1220,6 @@ def classify_set(prop, ds, rec, symptom):
         k = classify(prop, [ds[i], ds[j]], r2, symptom)
         if k not in cands:
             cands.append(k)
-    if prop == "C03":
-        # a destructive measurement of a remotely simulated qubit edits its node's handle list holding only the
-        # SIMULATOR's lock: with a third operation observing the order this is not serialisable
-        for node, site, op, own in rec.get("unguarded", []):
-            if site == "remote_measure" and any(node in d["touched"] or d["node"] == node and d["kind"] == "new"
-                                                for i, d in enumerate(ds) if i != op):
-                cands.append("unguarded-list-mutation:remote_measure")
-                break
     return "MULTI\t" + "\t".join([key] + cands)
 
 
@@ -1298,8 +1294,9 @@ def all_ops(ps, nodes=NODES, self_send=True, second_clients=()):
     return ops
 
 
-def pair_signature(ps, x, y):
-    """canonical form of a pair of op instances up to renaming of nodes / labels / registers"""
+def pair_signature(ps, x, y, fine=True):
+    """canonical form of a pair of op instances up to renaming of nodes / labels / registers (fine: the position
+    of each handle in its node's list is part of the class)"""
     best = None
     for a, b in ((x, y), (y, x)):
         nm, lm, rm = {}, {}, {}
@@ -1319,7 +1316,7 @@ def pair_signature(ps, x, y):
             for l in d["labels"]:
                 info = ps["labels"].get(l)
                 if info:
-                    item.append([Lb(l), N(info["holder"]), N(info["sim"]), Rg(info["reg"]), info.get("index", 0),
+                    item.append([Lb(l), N(info["holder"]), N(info["sim"]), Rg(info["reg"]), info.get("index", 0) if fine else 0,
                                  sorted(N(h) for h in ps["regs"][info["reg"]])])
             if d["target"]:
                 item.append(N(d["target"]))
@@ -1624,7 +1621,7 @@ def plan(prop, thorough, rng, scale=1.0):
         ops = [x for x in ops if x not in selfsend]
         # single operations (C04: "operations addressed to the issuing node itself"; timer races of one op)
         for x in ops + selfsend:
-            sig = "solo|" + pair_signature(ps, x, x)
+            sig = "solo|" + pair_signature(ps, x, x, thorough)
             if sig in seen:
                 continue
             seen.add(sig)
@@ -1636,7 +1633,7 @@ def plan(prop, thorough, rng, scale=1.0):
                           "cost": 10})
         # pairs
         for x, y in itertools.combinations_with_replacement(ops, 2):
-            sig = pair_signature(ps, x, y)
+            sig = pair_signature(ps, x, y, thorough)
             if sig in seen:
                 continue
             seen.add(sig)
@@ -1725,7 +1722,7 @@ def witnesses(prop):
     W = collections.defaultdict(list)
     local, cross, f12, shared = P["local"][0], P["cross"][0], P["f12"][0], P["shared"][0]
     holder = {"name": "holder", "prefix": P["remote-pair"][0],
-              "conc": [[A, ["lock", A]], [A, ["sleep", 10.0]], [A, ["unlock", A]], [C, ["g2", "s0", "s1", "cnot"]]]}
+              "conc": [[A, ["lock", A]], [A, ["sleep", 2.6]], [A, ["unlock", A]], [C, ["g2", "s0", "s1", "cnot"]]]}
     xmerge = {"name": "cross", "prefix": cross, "conc": [[A, ["g2", "a0", "y", "cnot"]], [B, ["g2", "b0", "x", "cnot"]]]}
     if prop == "C04":
         W["crossing-sends:A->B||B->A"].append(({"name": "local", "prefix": local[:3], "conc": [[A, ["send", "a0", B]], [B, ["send", "b0", A]]]},
@@ -1736,6 +1733,10 @@ def witnesses(prop):
             {"kind": "fifo"}))
         W["send-lock-cycle:third-simulator"].append((
             {"name": "cross", "prefix": cross[:7], "conc": [[A, ["send", "a0", B]], [B, ["send", "x", C]]]}, {"kind": "fifo"}))
+        W["same-handle:stale-handle-waits-on-dead-qubit-lock"].append((
+            {"name": "both-remote", "prefix": [["new", A, "p1"], ["send", "p1", C], ["new", B, "q0"], ["new", B, "q1"],
+                                               ["g2", "q0", "q1", "cnot"], ["send", "q1", C]],
+             "conc": [[B, ["send", "q0", A]], [C, ["g2", "q1", "p1", "cnot"]], ["Bob#2", ["g1", "q0", "H"]]]}, {"kind": "fifo"}))
         W["lock-nodes-timeout:foreign-release"].append((holder, {"kind": "phases", "phases": [[0, 2]], "tail": [0, 1, 2, 3]}))
         W["lock-nodes-timeout:foreign-release"].append((xmerge, {"kind": "fifo"}))
     else:
@@ -1751,9 +1752,11 @@ def witnesses(prop):
         W["same-handle:measD||send"].append(({"name": "local", "prefix": local[:1], "conc": [[A, ["meas", "a0", 0]], ["Alice#2", ["send", "a0", B]]]},
                                              {"kind": "phases", "phases": [[1, 1], [0, 1]], "tail": [1, 0]}))
         W["lock-nodes-timeout:foreign-release"].append((xmerge, {"kind": "fifo"}))
-        W["unguarded-list-mutation:remote_measure"].append((
-            {"name": "both-remote", "prefix": P["both-remote"][0][:5], "coin": {"default": 0, "by": {"p0": [1], "p1": [0]}},
-             "conc": [[A, ["send", "p0", C]], ["Alice#2", ["meas", "p0", 1]], [C, ["meas", "p1", 0]]]}, {"kind": "fifo"}))
+        W["same-handle:measI||send"].append((
+            {"name": "both-remote", "coin": {"default": 0},
+             "prefix": [["new", B, "q0"], ["new", B, "q1"], ["g1", "q0", "H"], ["g2", "q0", "q1", "cnot"], ["send", "q1", C],
+                        ["new", C, "c0"]],
+             "conc": [[B, ["send", "q0", A]], ["Bob#2", ["meas", "q0", 1]], [C, ["g2", "c0", "q1", "cnot"]]]}, {"kind": "fifo"}))
     for k in W:
         for case, _ in W[k]:
             case.setdefault("nodes", NODES)
@@ -1840,8 +1843,6 @@ def resolve_key(k, established):
     k2 = next((c for c in parts[1:] if c in established), None)
     if k2 is not None:
         return k2, "attributed to an established pair-level key"
-    if "unguarded-list-mutation:remote_measure" in parts:
-        return "unguarded-list-mutation:remote_measure", "root cause seen by the list monitor"
     return (parts[1] if len(parts) > 1 else parts[0]), "key no pair exploration established"
 
 
